@@ -16,6 +16,7 @@ PROPS = {
                          "x690 X690Type.get / from_bytes are loop-free contract slots in the decode unit"],
     },
     "C14": {
+        "standins": ["concurrent"],
         "units": [api_ops.units, seam.units, walks.units_c14, wire_v3.units_emit], "level": "other", "design_ref": "7.14",
         "technique": VC + "rely/guarantee under cooperative scheduling: control passes to other tasks only at an await; every "
                      "operation keeps its request state in locals (request built from its own arguments and its own id, result "
@@ -25,6 +26,7 @@ PROPS = {
                          "each sender call has its own reply (one socket per exchange: C13)"],
     },
     "C13": {
+        "standins": ["udp"],
         "units": [udp.units], "level": "other", "design_ref": "7.13",
         "technique": VC + "send_udp's retry loop by an inductive invariant over ghost counters (attempts, open transports, timeouts "
                      "waited) with the real SNMPClientProtocol callbacks executed inside; asyncio is an environment model that "
@@ -42,6 +44,7 @@ PROPS = {
                          "produced without the key", "x690 decode/serialisation contract on the term algebra"],
     },
     "C10": {
+        "standins": ["interop-C10"],
         "units": [wire_v3.units_emit, wire_v3.units_rx], "level": "other", "design_ref": "7.10",
         "technique": VC + "V3MPM.encode and the USM request path compared with the RFC 3412/3414 term (flags, parameters, digest over "
                      "the message as sent); key derivation verified against RFC 3414 A.2 for every password length; incoming "
@@ -49,12 +52,14 @@ PROPS = {
         "trusted_base": ["hashlib/hmac uninterpreted", "x690 serialisation/decode contract on the term algebra"],
     },
     "C11": {
+        "standins": ["interop-C11"],
         "units": [wire_v3.units_emit, wire_v3.units_rx], "level": "other", "design_ref": "7.11",
         "technique": VC + "apply_encryption / decrypt_message / localise_key executed with the privacy plug-in as two uninterpreted "
                      "functions satisfying decrypt(encrypt(x)) = x",
         "trusted_base": ["privacy plug-in contract (the property's axiom)", "x690 serialisation/decode contract"],
     },
     "C12": {
+        "standins": ["interop-C12"],
         "units": [wire_v3.units_emit, wire_v3.units_c12], "level": "other", "design_ref": "7.12",
         "technique": VC + "discovery exchange and request construction executed from the real code; timeliness as an obligation over "
                      "a ghost agent clock (environment steps: clock advance by any amount, reboot)",
@@ -84,6 +89,7 @@ PROPS = {
         "trusted_base": ["x690 decode contract on the TLV term algebra"],
     },
     "C19": {
+        "standins": ["trap"],
         "units": [wire_community.units_c19, seam.units, pythonic.units], "level": "other", "design_ref": "7.19",
         "technique": VC + "register_trap_callback's decode closure executed on a well-formed SNMPv2c notification with symbolic "
                      "leaves: version sniffing, loader, V2CMPM.decode, community check, scheduling of the callback",
@@ -91,6 +97,7 @@ PROPS = {
                          "and the endpoint stays registered", "x690 decode contract on the TLV term algebra"],
     },
     "C16": {
+        "standins": ["tables"],
         "units": [tables.units, pythonic.units_tables, walks.units_c16], "level": "other", "design_ref": "7.16",
         "technique": VC + "util.tablify executed on a symbolic stream (OIDs, values, base length symbolic; stream length "
                      "enumerated) against the row/cell postcondition; Client.table/bulktable checked at their call sites "
@@ -118,6 +125,7 @@ PROPS = {
                          "x690 Integer.encode_raw/decode_raw round trip: bounded stand-in (enumeration), not proved"],
     },
     "C18": {
+        "standins": ["config"],
         "units": [config.units, seam.units, wire_community.units_c05], "level": "proof", "design_ref": "7.18",
         "technique": VC + "configure, reconfigure (an @contextmanager function executed with an ARBITRARY block at its yield: "
                      "the block may reconfigure permanently and may raise), the transport handler closure and _send; "
@@ -127,7 +135,7 @@ PROPS = {
                          "mpm.create is a contract slot (returns a new model for the identifier)"],
     },
     "C03": {
-        "standins": ["lean"],
+        "standins": ["faulty", "lean"],
         "units": [walks.units_c03, x690_oid.units_for(("C01", "C02", "C03"))], "level": "other", "design_ref": "7.3",
         "technique": VC + "multiwalk with both fetchers against an UNCONSTRAINED agent (arbitrary bindings): inductive invariant "
                      "over ghost sets (continued-from, witnesses, revealed), variant from a finite-universe rank; roots, "
